@@ -615,10 +615,23 @@ func (pr *Prover) lenFacts(fs *factSet, s ssa.Value, depth int) {
 					if fv, _ := localFieldValue(a, fa.Field, x, 0); fv != nil {
 						pr.lenFacts(fs, fv, depth+1)
 					}
+				} else if st := reachingFieldStore(pr.P, x); st != nil {
+					// a field of a heap object read back with no possible write in between: the stored slice
+					a, b := lin{"len(" + pr.K.Key(s) + ")", 0}, pr.linLen(st.Val, "len")
+					fs.le(a, b, 0, "field holds the stored slice")
+					fs.le(b, a, 0, "field holds the stored slice")
+					pr.lenFacts(fs, st.Val, depth+1)
 				}
 			}
 		}
 	case *ssa.Call:
+		// append(x, y...): len(result) = len(x) + len(y)
+		if isBuiltinCall(x, "append") && len(x.Call.Args) == 2 {
+			if _, isSl := x.Call.Args[1].Type().Underlying().(*types.Slice); isSl {
+				fs.sums = append(fs.sums, [3]lin{{"len(" + pr.K.Key(s) + ")", 0}, pr.linLen(x.Call.Args[0], "len"), pr.linLen(x.Call.Args[1], "len")})
+				pr.lenFacts(fs, x.Call.Args[1], depth+1)
+			}
+		}
 		// EXT hash.Hash.Sum(b) appends to b: len(result) >= len(b)
 		if x.Call.IsInvoke() && x.Call.Method.Name() == "Sum" && len(x.Call.Args) == 1 {
 			fs.le(pr.linLen(x.Call.Args[0], "len"), lin{"len(" + pr.K.Key(s) + ")", 0}, 0, "EXT hash.Hash.Sum appends")
